@@ -67,6 +67,9 @@ def check_1d(case, ctx: Ctx):
         ctx.maybe(lambda: h.total_width)
 
     def do():
+        if kind == "int" and case.get("np_int"):
+            # the index as a numpy integer (np.argmax(h.frequencies), an element of an index array)
+            return h.select(0, np.int64(index)) if via_select else h[np.int64(index)]
         return h.select(0, index) if via_select else h[index]
 
     def unchanged():
@@ -234,7 +237,7 @@ def cases_1d(draw, tier="quick"):
         elif draw(st.integers(0, 4)) == 0:
             vals = sorted(v - n for v in vals)  # negative spellings, still increasing
         ix = [kind, vals]
-    return {"spec": spec, "index": ix, "select": draw(st.booleans()) and kind in ("int", "slice"), "touch": draw(st.booleans()), "mixed_magnitude": mixed}
+    return {"spec": spec, "index": ix, "select": draw(st.booleans()) and kind in ("int", "slice"), "touch": draw(st.booleans()), "mixed_magnitude": mixed, "np_int": draw(st.booleans())}
 
 
 # ---------------------------------------------------------------------------------
@@ -268,6 +271,10 @@ def check_nd(case, ctx: Ctx):
         parts = case["index"]
         items = [mk_index(p) for p in parts]
         key = tuple(items) if case.get("as_tuple", True) or len(items) != 1 else items[0]
+        if case.get("np_int"):
+            # integer indices as numpy integers (results of np.argmax, elements of index arrays)
+            key = tuple(np.int64(x) if isinstance(x, int) else x for x in key) if isinstance(key, tuple) else (np.int64(key) if isinstance(key, int) else key)
+            ctx.label("numpy_integer_indices")
         call = lambda: h[key]  # noqa: E731
         what = f"h[{key}]"
     ctx.label(f"d{d}", "mode_" + case["mode"])
@@ -373,10 +380,10 @@ def cases_nd(draw, tier="quick"):
     if draw(st.integers(0, 4)) == 0:
         # a full tuple of integers (negative ones included): returns the cell's edges and content
         parts = [["int", draw(st.integers(-shape[a], shape[a] - 1))] for a in range(d)]
-        return {"spec": spec, "mode": "index", "index": parts, "as_tuple": True}
+        return {"spec": spec, "mode": "index", "index": parts, "as_tuple": True, "np_int": draw(st.booleans())}
     k = d + 1 if draw(st.integers(0, 5)) == 0 else draw(st.integers(1, d))  # d + 1 indices: one too many
     parts = [draw(part(min(a, d - 1))) for a in range(k)]
-    return {"spec": spec, "mode": "index", "index": parts, "as_tuple": draw(st.booleans())}
+    return {"spec": spec, "mode": "index", "index": parts, "as_tuple": draw(st.booleans()), "np_int": draw(st.booleans())}
 
 
 FINDINGS = []
